@@ -1,6 +1,7 @@
 package main
 
 import (
+	"sync"
 	"encoding/json"
 	"fmt"
 	"go/types"
@@ -734,6 +735,19 @@ func tryReplay(c *Ctx, o *Obligation, dir string, qi int, secs int) map[string]i
 	res["model_search"] = status
 	if len(cands) == 0 {
 		res["verdict"] = "no candidate model (" + strings.Join(status, " ") + ")"
+		seed := 1
+		if v := os.Getenv("VERIF_SEED"); v != "" {
+			seed = atoiSafe(v)
+		}
+		for _, sh := range shapes {
+			sh.fill(map[string]string{})
+		}
+		ws := witnessSearch(c, o, dir, qi, shapes, seed)
+		res["witness_search"] = ws
+		if rep, _ := ws["reproduced"].(bool); rep {
+			res["reproduced"] = true
+			res["verdict"] = ws["verdict"]
+		}
 		return res
 	}
 	var last map[string]interface{}
@@ -752,28 +766,55 @@ func tryReplay(c *Ctx, o *Obligation, dir string, qi int, secs int) map[string]i
 		res[k] = v
 	}
 	res["candidates_tried"] = minInt(len(cands), 3)
+	if rep, _ := res["reproduced"].(bool); !rep {
+		seed := 1
+		if v := os.Getenv("VERIF_SEED"); v != "" {
+			seed = atoiSafe(v)
+		}
+		ws := witnessSearch(c, o, dir, qi, shapes, seed)
+		res["witness_search"] = ws
+		if rep, _ := ws["reproduced"].(bool); rep {
+			res["reproduced"] = true
+			res["verdict"] = ws["verdict"]
+		}
+	}
 	return res
 }
 
-func replayCandidate(c *Ctx, o *Obligation, dir string, qi int, shapes []*Shape, vals map[string]string, ghostTerms []string) map[string]interface{} {
-	res := map[string]interface{}{"reproduced": false}
-	fn := c.Fn
-	var ghostFacts []string
-	for _, g := range ghostTerms {
-		if v, ok := vals[normTerm(g)]; ok && !strings.Contains(v, "(as ") && !strings.Contains(v, "(_ ") {
-			ghostFacts = append(ghostFacts, fmt.Sprintf("(assert (= %s %s))", g, v))
-		}
-	}
-	res["abstract_state"] = ghostFacts
-	for _, sh := range shapes {
-		sh.fill(vals)
-	}
-	// the candidate must satisfy the preconditions (an `unknown` answer's candidate often does not)
+type replayCase struct {
+	shapes     []*Shape
+	args       []string
+	argTypes   []string
+	ghostFacts []string
+	notes      []string
+	source     string
+}
+
+// prepareCase validates concrete inputs against the preconditions and renders them for the test harness.
+func prepareCase(c *Ctx, dir string, qi int, shapes []*Shape, ghostFacts []string, source string) (*replayCase, string) {
 	if ok, why := c.inputsSatisfyRequires(shapes, ghostFacts, dir, qi); !ok {
-		res["verdict"] = "candidate input rejected: " + why
-		return res
+		return nil, "candidate input rejected: " + why
 	}
-	// Go test
+	pkg := c.pkgOf(c.Fn)
+	qual := func(p *types.Package) string {
+		if p == pkg {
+			return ""
+		}
+		return p.Name()
+	}
+	rc := &replayCase{shapes: shapes, ghostFacts: ghostFacts, source: source}
+	for _, sh := range shapes {
+		jb, _ := json.Marshal(sh.toJSON(&rc.notes))
+		rc.args = append(rc.args, string(jb))
+		rc.argTypes = append(rc.argTypes, types.TypeString(sh.Ty, qual))
+	}
+	return rc, ""
+}
+
+// runCases runs the real function on every case with one `go test` invocation; returns the observations by index.
+func runCases(c *Ctx, dir string, qi int, cases []*replayCase) (map[int]map[string]interface{}, map[string]interface{}) {
+	info := map[string]interface{}{}
+	fn := c.Fn
 	pkg := c.pkgOf(fn)
 	qual := func(p *types.Package) string {
 		if p == pkg {
@@ -781,24 +822,14 @@ func replayCandidate(c *Ctx, o *Obligation, dir string, qi int, shapes []*Shape,
 		}
 		return p.Name()
 	}
-	var notes []string
-	var args []string
-	var argTypes []string
+	call, ok := callExpr(fn, make([]string, len(fn.Params)), qual)
+	if !ok || len(cases) == 0 {
+		info["error"] = "cannot build a call expression for " + c.Key
+		return nil, info
+	}
 	imports := map[string]bool{}
-	for _, sh := range shapes {
-		jb, _ := json.Marshal(sh.toJSON(&notes))
-		args = append(args, string(jb))
-		argTypes = append(argTypes, types.TypeString(sh.Ty, qual))
-	}
-	call, ok := callExpr(fn, args, qual)
-	if !ok {
-		res["verdict"] = "cannot build a call expression for " + c.Key
-		return res
-	}
 	collectImports(fn, pkg, imports)
-	src := genReplayTest(pkg, fn, call, args, argTypes, imports, shapes)
-	res["inputs"] = args
-	res["notes"] = notes
+	src := genReplayTest(pkg, fn, call, cases, imports)
 	testFile := filepath.Join(dir, fmt.Sprintf("replay_%d_test.go", qi))
 	os.WriteFile(testFile, []byte(src), 0o644)
 	pkgDir := filepath.Join(repoDir(), strings.TrimPrefix(pkg.Path(), modPath))
@@ -810,58 +841,266 @@ func replayCandidate(c *Ctx, o *Obligation, dir string, qi int, shapes []*Shape,
 	cmd.Dir = pkgDir
 	outb, _ := cmd.CombinedOutput()
 	out := string(outb)
-	res["go_test_cmd"] = fmt.Sprintf("cd %s && go test -overlay %s -vet=off -count=1 -timeout 60s -run '^TestVcgoReplay$' .", pkgDir, ovFile)
-	if len(out) > 6000 {
-		out = out[:6000]
-	}
-	res["go_test_output"] = out
-	var obs map[string]interface{}
+	info["go_test_cmd"] = fmt.Sprintf("cd %s && go test -overlay %s -vet=off -count=1 -timeout 60s -v -run '^TestVcgoReplay$' .", pkgDir, ovFile)
+	obs := map[int]map[string]interface{}{}
 	for _, l := range strings.Split(out, "\n") {
 		if j := strings.Index(l, "VCGO-RESULT:"); j >= 0 {
-			json.Unmarshal([]byte(l[j+len("VCGO-RESULT:"):]), &obs)
+			rest := l[j+len("VCGO-RESULT:"):]
+			k := strings.Index(rest, ":")
+			if k < 0 {
+				continue
+			}
+			idx := atoiSafe(rest[:k])
+			var o map[string]interface{}
+			if json.Unmarshal([]byte(rest[k+1:]), &o) == nil {
+				obs[idx] = o
+			}
 		}
 	}
-	if obs == nil {
+	if len(out) > 4000 {
+		out = out[:4000]
+	}
+	info["go_test_output"] = out
+	if strings.Contains(out, "panic: test timed out") {
+		info["timed_out"] = true
+	}
+	return obs, info
+}
+
+// judgeCase decides whether the observation reproduces the failed obligation.
+func judgeCase(c *Ctx, o *Obligation, dir string, qi int, rc *replayCase, obs map[string]interface{}) (bool, string, map[string]interface{}) {
+	panicked, _ := obs["panic"].(string)
+	kind := o.Kind
+	if panicked != "" {
+		return true, "real code panics on this input: " + panicked, nil
+	}
+	switch {
+	case strings.HasPrefix(kind, "post#"):
+		v, detail := c.evalPostOnObserved(o, rc.shapes, obs, dir, qi, rc.ghostFacts)
+		if v == "violated" {
+			return true, "postcondition is false for the values the real code returned on this input", detail
+		}
+		return false, "postcondition " + v + " on the candidate input", detail
+	case strings.HasPrefix(kind, "safe-") || strings.HasPrefix(kind, "pre#") || strings.HasPrefix(kind, "ovf"):
+		return false, "real code does not panic on the candidate input", nil
+	}
+	return false, "intermediate-state obligation: not observable from outside, real code ran without panic", nil
+}
+
+func replayCandidate(c *Ctx, o *Obligation, dir string, qi int, shapes []*Shape, vals map[string]string, ghostTerms []string) map[string]interface{} {
+	res := map[string]interface{}{"reproduced": false}
+	var ghostFacts []string
+	for _, g := range ghostTerms {
+		if v, ok := vals[normTerm(g)]; ok && !strings.Contains(v, "(as ") && !strings.Contains(v, "(_ ") {
+			ghostFacts = append(ghostFacts, fmt.Sprintf("(assert (= %s %s))", g, v))
+		}
+	}
+	res["abstract_state"] = ghostFacts
+	for _, sh := range shapes {
+		sh.fill(vals)
+	}
+	rc, why := prepareCase(c, dir, qi, shapes, ghostFacts, "model")
+	if rc == nil {
+		res["verdict"] = why
+		return res
+	}
+	res["inputs"] = rc.args
+	res["notes"] = rc.notes
+	obs, info := runCases(c, dir, qi, []*replayCase{rc})
+	for k, v := range info {
+		res[k] = v
+	}
+	ob := obs[0]
+	if ob == nil {
 		res["verdict"] = "replay test did not run (build error or timeout)"
-		if strings.Contains(out, "panic: test timed out") {
+		if info["timed_out"] != nil {
 			res["verdict"] = "real code did not terminate within 60s on the model input"
 			res["reproduced"] = strings.HasPrefix(o.Kind, "dec#")
 		}
 		return res
 	}
-	res["observed"] = obs
-	panicked, _ := obs["panic"].(string)
-	kind := o.Kind
-	switch {
-	case strings.HasPrefix(kind, "safe-") || strings.HasPrefix(kind, "pre#") || strings.HasPrefix(kind, "ovf"):
-		if panicked != "" {
-			res["reproduced"] = true
-			res["verdict"] = "real code panics on the model input: " + panicked
-		} else {
-			res["verdict"] = "real code does not panic on the candidate input"
-		}
-	case strings.HasPrefix(kind, "post#"):
-		if panicked != "" {
-			res["reproduced"] = true
-			res["verdict"] = "real code panics on the model input: " + panicked
-			return res
-		}
-		v, detail := c.evalPostOnObserved(o, shapes, obs, dir, qi, ghostFacts)
+	res["observed"] = ob
+	rep, verdict, detail := judgeCase(c, o, dir, qi, rc, ob)
+	res["reproduced"] = rep
+	res["verdict"] = verdict
+	if detail != nil {
 		res["post_check"] = detail
-		if v == "violated" {
-			res["reproduced"] = true
-			res["verdict"] = "postcondition is false for the values the real code returned on the model input"
-		} else {
-			res["verdict"] = "postcondition " + v + " on the candidate input"
+	}
+	return res
+}
+
+// ---------------------------------------------------------------------------
+// Bounded witness search: when no model-derived input reproduces the failure, small inputs are enumerated
+// (pseudo-randomly, seeded), filtered by the preconditions, and run against the real code in one batch.
+// It can only ever turn "no-failing-input-found" into a reproduced violation; it never decides a pass.
+// ---------------------------------------------------------------------------
+
+type lcg struct{ s uint64 }
+
+func (r *lcg) next() uint64 {
+	r.s = r.s*6364136223846793005 + 1442695040888963407
+	return r.s >> 33
+}
+func (r *lcg) intn(n int) int { return int(r.next() % uint64(n)) }
+
+func (sh *Shape) clone() *Shape {
+	n := *sh
+	n.Fields = nil
+	for _, f := range sh.Fields {
+		n.Fields = append(n.Fields, f.clone())
+	}
+	n.Elems = nil
+	for _, e := range sh.Elems {
+		n.Elems = append(n.Elems, e.clone())
+	}
+	if sh.Pointee != nil {
+		n.Pointee = sh.Pointee.clone()
+	}
+	return &n
+}
+
+func (sh *Shape) randomize(c *Ctx, r *lcg, depth int) {
+	switch sh.Kind {
+	case "int":
+		pool := []string{"0", "1", "2", "3", "5", "7", "8", "9", "10", "100", "1000", "4096", "65535", "65536"}
+		if b := c.basicInt(sh.Ty); b != nil {
+			if lo, hi, ok := intRange(b); ok {
+				pool = append(pool, smtInt(hi), smtInt(new(big.Int).Sub(hi, big.NewInt(1))))
+				if lo.Sign() < 0 {
+					pool = append(pool, "(- 1)", "(- 2)", smtInt(lo), smtInt(new(big.Int).Add(lo, big.NewInt(1))))
+				}
+				if hi.BitLen() < 60 {
+					// small types: keep pool values in range
+					var p2 []string
+					for _, v := range pool {
+						if bv := smtIntValue(v); bv != nil && bv.Cmp(lo) >= 0 && bv.Cmp(hi) <= 0 {
+							p2 = append(p2, v)
+						}
+					}
+					pool = p2
+				}
+			}
 		}
-	default:
-		if panicked != "" {
-			res["reproduced"] = true
-			res["verdict"] = "real code panics on the model input: " + panicked
+		if sh.Val != "" && r.intn(4) == 0 {
+			return // keep the model value
+		}
+		sh.Val = pool[r.intn(len(pool))]
+	case "bool":
+		if r.intn(2) == 0 {
+			sh.Val = "true"
 		} else {
-			res["verdict"] = "intermediate-state obligation: not observable from outside, real code ran without panic"
+			sh.Val = "false"
+		}
+	case "float":
+		sh.Val = []string{"0.0", "1.0", "(- 1.0)", "0.5", "100.0"}[r.intn(5)]
+	case "time":
+		sh.Val = []string{"0", "1000000000", "1700000000000000000", "(- 1000000000)", "1700000060000000000"}[r.intn(5)]
+	case "string":
+		n := r.intn(4)
+		bs := make([]byte, n)
+		for i := range bs {
+			bs[i] = "ab*0 :"[r.intn(6)]
+		}
+		sh.Val = string(bs)
+		sh.Len = n
+	case "slice":
+		sh.IsNil = r.intn(6) == 0
+		sh.Len = r.intn(4)
+		if depth > 1 {
+			sh.Len = r.intn(3)
+		}
+		if sh.IsNil {
+			sh.Len = 0
+		}
+		for k := 0; k < sh.Len && k < len(sh.Elems); k++ {
+			sh.Elems[k].randomize(c, r, depth+1)
+		}
+	case "ptr":
+		sh.IsNil = sh.Pointee == nil || (depth > 0 && r.intn(5) == 0)
+		if !sh.IsNil {
+			sh.Pointee.randomize(c, r, depth+1)
+		}
+	case "struct":
+		for _, f := range sh.Fields {
+			f.randomize(c, r, depth+1)
 		}
 	}
+}
+
+func witnessSearch(c *Ctx, o *Obligation, dir string, qi int, shapes []*Shape, seed int) map[string]interface{} {
+	res := map[string]interface{}{"reproduced": false}
+	r := &lcg{s: uint64(seed)*2654435761 + 12345}
+	const tries = 60
+	const keep = 24
+	type cand struct {
+		sh []*Shape
+		rc *replayCase
+	}
+	var mu sync.Mutex
+	var valid []*replayCase
+	var wg sync.WaitGroup
+	sem := make(chan struct{}, 16)
+	var all [][]*Shape
+	for t := 0; t < tries; t++ {
+		var cp []*Shape
+		for _, sh := range shapes {
+			n := sh.clone()
+			n.randomize(c, r, 0)
+			cp = append(cp, n)
+		}
+		all = append(all, cp)
+	}
+	rejected := 0
+	for t, cp := range all {
+		wg.Add(1)
+		sem <- struct{}{}
+		go func(t int, cp []*Shape) {
+			defer wg.Done()
+			defer func() { <-sem }()
+			rc, _ := prepareCase(c, dir, 1000+qi*100+t, cp, nil, "witness search")
+			mu.Lock()
+			if rc != nil && len(valid) < keep {
+				valid = append(valid, rc)
+			} else if rc == nil {
+				rejected++
+			}
+			mu.Unlock()
+		}(t, cp)
+	}
+	wg.Wait()
+	res["generated"] = tries
+	res["rejected_by_preconditions"] = rejected
+	res["run"] = len(valid)
+	if len(valid) == 0 {
+		res["verdict"] = "witness search: no generated input satisfies the preconditions"
+		return res
+	}
+	obs, info := runCases(c, dir, 900+qi, valid)
+	res["go_test_cmd"] = info["go_test_cmd"]
+	for i, rc := range valid {
+		ob := obs[i]
+		if ob == nil {
+			continue
+		}
+		rep, verdict, detail := judgeCase(c, o, dir, 900+qi, rc, ob)
+		if rep {
+			res["reproduced"] = true
+			res["verdict"] = "witness search: " + verdict
+			res["inputs"] = rc.args
+			res["observed"] = ob
+			if detail != nil {
+				res["post_check"] = detail
+			}
+			// keep a single-case test file for the failing input
+			runCases(c, dir, 950+qi, []*replayCase{rc})
+			return res
+		}
+	}
+	if info["timed_out"] != nil {
+		res["verdict"] = "witness search: the real code did not terminate within 60 s on one of the inputs"
+		return res
+	}
+	res["verdict"] = fmt.Sprintf("witness search: none of %d precondition-satisfying small inputs reproduces the failure", len(valid))
 	return res
 }
 
@@ -921,7 +1160,7 @@ func collectImports(fn *ssa.Function, pkg *types.Package, imports map[string]boo
 	}
 }
 
-func genReplayTest(pkg *types.Package, fn *ssa.Function, call string, args []string, argTypes []string, imports map[string]bool, shapes []*Shape) string {
+func genReplayTest(pkg *types.Package, fn *ssa.Function, call string, cases []*replayCase, imports map[string]bool) string {
 	var sb strings.Builder
 	fmt.Fprintf(&sb, "package %s\n\nimport (\n\t\"encoding/json\"\n\t\"fmt\"\n\t\"math/big\"\n\t\"reflect\"\n\t\"testing\"\n\t\"time\"\n\t\"unsafe\"\n", pkg.Name())
 	var imps []string
@@ -929,6 +1168,7 @@ func genReplayTest(pkg *types.Package, fn *ssa.Function, call string, args []str
 		imps = append(imps, p)
 	}
 	sort.Strings(imps)
+	argTypes := cases[0].argTypes
 	allArgs := strings.Join(argTypes, " ")
 	for _, p := range imps {
 		if p == "encoding/json" || p == "fmt" || p == "reflect" || p == "testing" || p == "time" || p == "unsafe" || p == "math/big" {
@@ -944,41 +1184,42 @@ func genReplayTest(pkg *types.Package, fn *ssa.Function, call string, args []str
 		fmt.Fprintf(&sb, "\t%q\n", p)
 	}
 	sb.WriteString(")\n\n")
-	for _, p := range imps {
-		// keep imports used
-		_ = p
-	}
 	sb.WriteString(replayDumper)
+	sb.WriteString("\nvar vcgoCases = [][]string{\n")
+	for _, rc := range cases {
+		sb.WriteString("\t{")
+		for _, a := range rc.args {
+			fmt.Fprintf(&sb, "%q, ", a)
+		}
+		sb.WriteString("},\n")
+	}
+	sb.WriteString("}\n")
 	sb.WriteString("\nfunc TestVcgoReplay(t *testing.T) {\n")
 	sb.WriteString("\tvar _ = time.Now\n\tvar _ unsafe.Pointer\n\tvar _ = big.NewInt\n")
-	for i, a := range args {
-		fmt.Fprintf(&sb, "\tvar a%d %s\n\tvcgoBuild(reflect.ValueOf(&a%d).Elem(), %q)\n", i, argTypes[i], i, a)
+	sb.WriteString("\tfor ci, cs := range vcgoCases {\n\t\t_ = cs\n")
+	for i := range argTypes {
+		fmt.Fprintf(&sb, "\t\tvar a%d %s\n\t\tvcgoBuild(reflect.ValueOf(&a%d).Elem(), cs[%d])\n", i, argTypes[i], i, i)
 	}
-	sb.WriteString("\tout := map[string]interface{}{}\n")
-	sb.WriteString("\tfunc() {\n\t\tdefer func() {\n\t\t\tif r := recover(); r != nil {\n\t\t\t\tout[\"panic\"] = fmt.Sprint(r)\n\t\t\t}\n\t\t}()\n")
+	sb.WriteString("\t\tout := map[string]interface{}{}\n")
+	sb.WriteString("\t\tfunc() {\n\t\t\tdefer func() {\n\t\t\t\tif r := recover(); r != nil {\n\t\t\t\t\tout[\"panic\"] = fmt.Sprint(r)\n\t\t\t\t}\n\t\t\t}()\n")
 	nres := fn.Signature.Results().Len()
 	if nres == 0 {
-		fmt.Fprintf(&sb, "\t\t%s\n", call)
+		fmt.Fprintf(&sb, "\t\t\t%s\n", call)
 	} else {
 		var rs []string
 		for i := 0; i < nres; i++ {
 			rs = append(rs, fmt.Sprintf("r%d", i))
 		}
-		fmt.Fprintf(&sb, "\t\t%s := %s\n", strings.Join(rs, ", "), call)
+		fmt.Fprintf(&sb, "\t\t\t%s := %s\n", strings.Join(rs, ", "), call)
 		for i := 0; i < nres; i++ {
-			fmt.Fprintf(&sb, "\t\tout[\"result%d\"] = vcgoDump(reflect.ValueOf(&r%d).Elem(), 0)\n", i, i)
+			fmt.Fprintf(&sb, "\t\t\tout[\"result%d\"] = vcgoDump(reflect.ValueOf(&r%d).Elem(), 0)\n", i, i)
 		}
 	}
-	sb.WriteString("\t}()\n")
-	for i := range args {
-		fmt.Fprintf(&sb, "\tout[\"arg%d\"] = vcgoDump(reflect.ValueOf(&a%d).Elem(), 0)\n", i, i)
+	sb.WriteString("\t\t}()\n")
+	for i := range argTypes {
+		fmt.Fprintf(&sb, "\t\tout[\"arg%d\"] = vcgoDump(reflect.ValueOf(&a%d).Elem(), 0)\n", i, i)
 	}
-	sb.WriteString("\tb, _ := json.Marshal(out)\n\tfmt.Println(\"VCGO-RESULT:\" + string(b))\n}\n")
-	// silence unused imports
-	for _, p := range imps {
-		base := p[strings.LastIndex(p, "/")+1:]
-		_ = base
-	}
+	sb.WriteString("\t\tb, _ := json.Marshal(out)\n\t\tfmt.Printf(\"VCGO-RESULT:%d:%s\\n\", ci, string(b))\n\t}\n}\n")
 	return sb.String()
 }
 
